@@ -124,6 +124,7 @@ func runC01(c *Ctx, r *Rec) {
 		checkIndexGuardAdmitsLength(c, r, "D2-guard-excludes-the-length", fds)
 		checkNoDynamicEquality(c, r, "D2c-no-dynamic-equality", fds)
 		checkCopiesTile(c, r, "D6-copies-tile", fds)
+		checkUnsignedExtremes(c, r, "D1-unsigned-extremes", fds, nil)
 	}
 	// ---- D2 normalisers
 	type layer struct {
